@@ -6,7 +6,7 @@ from .common import strip_casts, short, comparison, FLIP, member_funcs
 
 UNITS = ['sdk/src/metrics/state/temporal_metric_storage.cc', 'sdk/src/metrics/state/sync_metric_storage.cc',
          'sdk/src/metrics/aggregation/sum_aggregation.cc', 'sdk/src/metrics/meter.cc',
-         'sdk/src/metrics/state/metric_collector.cc', 'sdk/src/metrics/sync_instruments.cc']
+         'sdk/src/metrics/state/metric_collector.cc', 'sdk/src/metrics/sync_instruments.cc', 'sdk/src/metrics/meter_context.cc']
 DRIVERS = ['metrics_headers.cc']
 CANARIES = ['c06_canary.cc']
 
@@ -22,7 +22,8 @@ EXPLANATION = (
     '(abutting delta intervals): a delta start time must depend on per-collector state; the per-collector timestamp that feeds '
     'it is read before the entry is overwritten. C06.R5 (nothing replaced in the registry): a write to the storage registry '
     'inside a per-view callback must use a key depending on the view. C06.R6 (siblings): Sum Merge adds the two values, Diff is '
-    'next - this.')
+    'next - this. C06.R7 (fan-in): MetricCollector::Produce hands ForEachMeter a callback that returns true on every exit, ForEachMeter '
+    'calls it for every meter (the loop is left only when the callback says stop), Meter::Collect collects every registered storage.')
 NOT_DECIDED = 'exact conservation of sums over arbitrary histories and races (arithmetic), cumulative totals over time.'
 
 
@@ -207,8 +208,73 @@ def build_metrics_rules(ck, prog, rule3='C06.R3', rule4='C06.R4', fname='sdk::me
         ck.verdict(ok, rule3, f, 'return-without-report@%s' % ('single' if g.must_pass_edge(r, single_edge) else 'multi'), r.n,
                    'early return only on the single-collector fast path or when this reader has no stash' if ok else
                    'buildMetrics can return without a report before this reader\'s stash was consulted although several readers may be attached: what other readers\' collections stashed for this reader is never delivered')
+    # writes to the per-collector "last reported" stash
+    writes = [p for p in g.points if p.n is not None and p.ctx is g.root_ctx and
+              ((p.n['k'] == 'call' and p.n.get('op') == '=' and p.n.get('obj') is not None and
+                (access_path(f, p.n['obj'])[:2] == ('this', 'last_reported_metrics_') or _from_find(g, rd, f, p.n['obj'], p.ctx, 'last_reported_metrics_'))) or
+               (p.n['k'] == 'call' and strip_targs(p.n.get('c', '')).rsplit('::', 1)[-1] in ('insert', 'emplace', 'insert_or_assign') and
+                p.n.get('obj') is not None and access_path(f, p.n['obj'])[:2] == ('this', 'last_reported_metrics_')))]
+    # R3d: the map stored as "reported" is the one the reader's unreported deltas were merged into, on every path
+    merged_vars = {}
+    for w in writes:
+        for a in ([w.n['obj']] if False else []) + w.n.get('args', []):
+            for j in f.subtree(a):
+                m = f.nodes[j]
+                if m['k'] == 'ref' and m.get('sk') == 'local' and 'unique_ptr<' in m.get('t', '') and 'AttributesHashMap' in m.get('t', ''):
+                    merged_vars.setdefault(m['id'], (m['name'], []))[1].append(w)
+    # the variable the unreported list is merged into: captured by reference by a GetAllEnteries callback run inside the loop
+    # over this reader's unreported list
+    fed = set()
+    for lp in [n for n in f.nodes if n['k'] == 'forrange']:
+        if 'unreported_metrics_' not in _member_sources(g, rd, f, lp['range'], g.root_ctx):
+            continue
+        for j in f.subtree(lp['body']):
+            m = f.nodes[j]
+            if m['k'] == 'lambda':
+                for c in m.get('caps', []):
+                    if c.get('byref') and c.get('id') in merged_vars:
+                        fed.add(c['id'])
+    if writes and not fed:
+        ck.violation(rule3, f, 'unreported-merged-into-reported', writes[0].n,
+                     'no map that is stored as this reader\'s reported state is filled from the reader\'s unreported list: what other readers\' collections stashed for it is never reported')
+    for vid in sorted(fed):
+        name, ws = merged_vars[vid]
+        bad = None
+        for w in ws:
+            defs = [g.points[d] for (v, d) in rd.get(w.id, ()) if v == vid]
+            # a definition with a value (assignment / reset(x)); being moved from inside the stored expression itself is not one
+            extra = [dp for dp in defs if dp.n['k'] != 'declstmt' and
+                     (any(v == vid and st for (v, st, vx) in defs_in_node(dp.f, dp.n)) or
+                      (dp.n['k'] == 'call' and strip_targs(dp.n.get('c', '')).rsplit('::', 1)[-1] in ('reset', 'swap', 'release')))]
+            if extra:
+                bad = (w, extra[0])
+        ck.verdict(bad is None, rule3, f, 'unreported-merged-into-reported', (bad[1] if bad else ws[0]).n,
+                   'the map stored as reported is, on every path, the one the unreported deltas were merged into (%s)' % name if bad is None else
+                   '%s is re-assigned before it is stored as the reader\'s reported state: on that path the deltas merged from the reader\'s unreported list are dropped (the cumulative total stays too low for good)' % name,
+                   path=None if bad is None else g.describe_path(g.path(bad[1], bad[0]) or []))
     if rule4 is None:
         return f
+    # R4c: every report produced on the stash path stores the current collection time for the reader
+    end_ts = [p for p in g.points if p.n is not None and p.ctx is g.root_ctx and
+              ((p.n['k'] == 'call' and p.n.get('op') == '=' and p.n.get('obj') is not None and access_path(f, p.n['obj'])[-1:] == ('end_ts',)) or
+               (p.n['k'] == 'binop' and p.n['op'] == '=' and access_path(f, p.n['lhs'])[-1:] == ('end_ts',)))]
+    now_ids = set()
+    for ep in end_ts:
+        rhs = ep.n['args'][0] if ep.n['k'] == 'call' else ep.n['rhs']
+        for j in f.subtree(rhs):
+            if f.nodes[j]['k'] == 'ref' and f.nodes[j].get('sk') == 'param':
+                now_ids.add(f.nodes[j]['id'])
+    if len(now_ids) != 1:
+        raise AnalysisBroken('buildMetrics: the parameter carrying the current collection time (source of end_ts) not identified')
+    ts_writes = [w for w in writes if any(f.nodes[j]['k'] == 'ref' and f.nodes[j].get('id') in now_ids for a in w.n.get('args', []) for j in f.subtree(a))]
+    for cb in callbacks:
+        if g.must_pass_edge(cb, single_edge):
+            continue
+        ok = bool(ts_writes) and g.must_pass(cb, ts_writes)
+        ck.verdict(ok, rule4, f, 'collection-time-stored-before-report', cb.n,
+                   'every report on the stash path is preceded by storing the current collection time for this reader' if ok else
+                   'a report can be produced without the reader\'s stored collection time being advanced to the current one: the next delta interval starts at a stale time and overlaps this one',
+                   path=None if ok else g.describe_path(g.path(g.entry, cb, avoid=ts_writes) or []))
     # R4: start timestamps
     starts = [p for p in g.points if p.n is not None and p.ctx is g.root_ctx and
               ((p.n['k'] == 'call' and p.n.get('op') == '=' and p.n.get('obj') is not None and access_path(f, p.n['obj'])[-1:] == ('start_ts',)) or
@@ -245,11 +311,6 @@ def build_metrics_rules(ck, prog, rule3='C06.R3', rule4='C06.R4', fname='sdk::me
             ck.inconclusive(rule4, f, site, sp.n, 'source of the start timestamp not recognised')
     # the per-collector timestamp is read before its entry is overwritten
     reads = [p for p in g.points if p.n is not None and p.n['k'] == 'member' and p.n['name'] == 'collection_ts' and p.ctx is g.root_ctx]
-    writes = [p for p in g.points if p.n is not None and p.ctx is g.root_ctx and
-              ((p.n['k'] == 'call' and p.n.get('op') == '=' and p.n.get('obj') is not None and
-                (access_path(f, p.n['obj'])[:2] == ('this', 'last_reported_metrics_') or _from_find(g, rd, f, p.n['obj'], p.ctx, 'last_reported_metrics_'))) or
-               (p.n['k'] == 'call' and strip_targs(p.n.get('c', '')).rsplit('::', 1)[-1] in ('insert', 'emplace', 'insert_or_assign') and
-                p.n.get('obj') is not None and access_path(f, p.n['obj'])[:2] == ('this', 'last_reported_metrics_')))]
     for rp in reads:
         stale = [w for w in writes if rp.id in g.reachable_from([q for (q, _l) in w.succ])]
         ck.verdict(not stale, rule4, f, 'previous-ts-read-before-overwrite', rp.n,
@@ -257,6 +318,21 @@ def build_metrics_rules(ck, prog, rule3='C06.R3', rule4='C06.R4', fname='sdk::me
                    'the collector\'s previous collection time is read after its entry was overwritten with the current one: the delta interval degenerates to start == end',
                    path=None if not stale else g.describe_path(g.path(stale[0], rp) or []))
     return f
+
+
+def _member_sources(g, rd, f, idx, ctx, depth=4, seen=None):
+    """names of the data members an expression is derived from, following locals (iterators, moved-from copies) back to their definitions"""
+    out = set()
+    seen = seen if seen is not None else set()
+    for (sf, sn, sc) in origins(g, rd, f, idx, ctx):
+        for j in sf.subtree(sn['i']):
+            m = sf.nodes[j]
+            if m['k'] == 'member' and m.get('mk') != 'method':
+                out.add(m['name'])
+            elif m['k'] == 'ref' and m.get('sk') == 'local' and depth > 0 and (id(sf), j) not in seen and j != idx:
+                seen.add((id(sf), j))
+                out |= _member_sources(g, rd, sf, j, sc, depth - 1, seen)
+    return out
 
 
 def _from_find(g, rd, f, idx, ctx, field):
@@ -318,13 +394,74 @@ def rule_r6(ck, prog, rule='C06.R6'):
                        '%s::%s does not compute %s' % (cls.rsplit('::', 1)[-1], name, 'this + delta' if op == '+' else 'next - this'))
 
 
+def _lambda_returns(prog, f, arg):
+    """(lambda function, [return value nodes]) of the lambda passed as argument `arg` of a call in f"""
+    for i in f.subtree(arg):
+        if f.nodes[i]['k'] == 'lambda' and f.nodes[i].get('fn') in prog.funcs:
+            lf = prog.funcs[f.nodes[i]['fn']]
+            return lf, [strip_casts(lf, n['e']) if n.get('e') is not None and n['e'] >= 0 else None for n in lf.nodes if n['k'] == 'return']
+    return None, None
+
+
+def rule_r7(ck, prog, rule='C06.R7'):
+    """collection fan-in: a collection visits every meter and every storage; the iteration callbacks never ask to stop."""
+    from .common import loop_visits_every_element
+    # (a) the collector visits every meter
+    f = prog.function('sdk::metrics::MetricCollector::Produce')
+    calls = [n for n in f.nodes if n['k'] == 'call' and strip_targs(n.get('c', '')).endswith('MeterContext::ForEachMeter')]
+    if not calls:
+        raise AnalysisBroken('MetricCollector::Produce: iteration over the meters not found')
+    lf, rets = _lambda_returns(prog, f, calls[0]['args'][0])
+    if lf is None:
+        ck.inconclusive(rule, f, 'per-meter-callback-never-stops', calls[0], 'the per-meter callback is not a lambda in place')
+    else:
+        bad = [r for r in rets if r is None or not (r['k'] == 'lit' and r.get('v') == 1)]
+        ck.verdict(not bad, rule, lf, 'per-meter-callback-never-stops', bad[0] if bad else calls[0],
+                   'the per-meter callback returns true on all %d exits' % len(rets) if not bad else
+                   'the per-meter callback can return something other than true: ForEachMeter stops and every meter registered after this one is not collected by this reader')
+    # (b) ForEachMeter itself: every meter unless the callback asks to stop
+    fe = prog.function('sdk::metrics::MeterContext::ForEachMeter')
+    g = Graph(prog, fe, inline=None, sync_lambdas=False)
+    cbp = [p for p in fe.params if 'function_ref' in p['t']]
+    loops = [n for n in fe.nodes if n['k'] == 'forrange' and access_path(fe, n['range']) == ('this', 'meters_')]
+    if not cbp or not loops:
+        raise AnalysisBroken('MeterContext::ForEachMeter: loop over meters_ / callback parameter not found')
+    inv = [p for p in g.points if p.n is not None and p.n['k'] == 'call' and
+           ((p.n.get('obj') is not None and strip_casts(fe, p.n['obj']).get('id') == cbp[0]['id']) or
+            (p.n.get('fx') is not None and strip_casts(fe, p.n['fx']).get('id') == cbp[0]['id']))]
+
+    def stop_edge(a, b, lab):
+        if not lab or not isinstance(lab[0], int):
+            return False
+        core, pol = norm_cond(lab[1], lab[0])
+        return any(lab[1].nodes[core] is p.n for p in inv) and (lab[2] if pol else not lab[2]) is False
+    why = loop_visits_every_element(g, fe, loops[0], inv, allowed_exit=stop_edge)
+    ck.verdict(why is None, rule, fe, 'every-meter-visited', loops[0], 'every meter is handed to the callback; the loop stops only when the callback says so' if why is None else why)
+    # (c) a meter collects every storage
+    mc = prog.function('sdk::metrics::Meter::Collect')
+    g = Graph(prog, mc, inline=None, sync_lambdas=False)
+    loops = [n for n in mc.nodes if n['k'] == 'forrange' and access_path(mc, n['range']) == ('this', 'storage_registry_')]
+    if not loops:
+        raise AnalysisBroken('Meter::Collect: loop over storage_registry_ not found')
+    cps = [p for p in g.points if p.n is not None and p.n['k'] == 'call' and p.n.get('virt') and strip_targs(p.n.get('c', '')).endswith('MetricStorage::Collect')
+           and p.n['i'] in set(mc.subtree(loops[0]['body']))]
+    why = loop_visits_every_element(g, mc, loops[0], cps)
+    if why is None and cps:
+        lf, rets = _lambda_returns(prog, mc, cps[0].n['args'][-1])
+        if lf is not None and any(r is None or not (r['k'] == 'lit' and r.get('v') == 1) for r in rets):
+            why = 'the per-metric callback can return false, which ends the storage\'s report early'
+    ck.verdict(why is None, rule, mc, 'every-storage-collected', loops[0], 'every registered storage is collected in every collection' if why is None else
+               why + ': the measurements of the skipped storages never reach this reader')
+
+
 def run(ck, prog):
     ck.doc('C06.R1', 'lock-field association: table + Aggregate under the table lock; stashes under their lock; sum point under its lock', 10)
     ck.doc('C06.R2', 'every Add/Record overload forwards value/attributes/context to the matching storage call; multi storage to all', 20)
-    ck.doc('C06.R3', 'buildMetrics: delta to every collector; fast path only for a single reader; no early return before the stash', 5)
-    ck.doc('C06.R4', 'delta start time depends on per-collector state; previous time read before overwrite', 3)
+    ck.doc('C06.R3', 'buildMetrics: delta to every collector; fast path only for a single reader; no early return before the stash; merged stash reaches the report', 6)
+    ck.doc('C06.R4', 'delta start time depends on per-collector state; previous time read before overwrite; current time stored before every report', 4)
     ck.doc('C06.R5', 'registry writes in the per-view callback use a view-dependent key', 2)
     ck.doc('C06.R6', 'Sum Merge = this + delta, Diff = next - this', 4)
+    ck.doc('C06.R7', 'collection fan-in: every meter and every storage is visited; iteration callbacks never ask to stop', 3)
     with ck.canary('C06.R1'):
         rule_r1_sync(ck, prog, cls='canary::c06::BadStorage')
     rule_r1_sync(ck, prog)
@@ -335,4 +472,5 @@ def run(ck, prog):
     build_metrics_rules(ck, prog)
     rule_r5(ck, prog)
     rule_r6(ck, prog)
+    rule_r7(ck, prog)
     return {}
